@@ -108,6 +108,7 @@ def emul_full_expr(e, l, my_eip, env, machine):
         #rep mnemo
         #XXX HACK 16 bit
         tsc_inc = 0
+        mem_dst = []    # a zero count executes no step
         if 0x66 in l.prefix and l.m.name[-1]== "d":
             raise ValueError("not impl 16 bit string")
         if l.m.name[:-1] in ["cmps", "scas"]: # repz or repnz
